@@ -454,6 +454,15 @@ func c12caret(k *mon.Case) {
 		if d > math.Pi {
 			d = math.Abs(d - 2*math.Pi)
 		}
+		// The property speaks of the caret *slope*: a line, not a
+		// direction.  For angles up to 1.5 rad (86 degrees) from the
+		// vertical the angle itself has to come back; closer to the
+		// horizontal, where rise is (almost) 0 and its sign carries no
+		// information, only the slope is compared.
+		if math.Abs(a) > 1.5 && d > math.Pi/2 {
+			d = math.Pi - d
+			k.Class("caret:direction-reversed-near-horizontal")
+		}
 		// a best approximation with 16-bit rise and run is within 1/(2*32767) rad
 		if d > 1e-4 {
 			k.Fail("mismatch", "hhea:caret-angle-roundtrip", "angle %v comes back as %v", a, dec.CaretAngle)
